@@ -887,6 +887,42 @@ class Engine:
             self.stats.bump("unknown")
         return r, m
 
+    def canon(self, z):
+        """id of a canonical representative of the term `z` on this path: two terms that the path condition forces to be
+        equal get the same id (used to name things the way hashing concrete values would: equal values, equal tokens).
+        Terms that are equal only for some values keep different ids -- such coincidences are outside the model."""
+        z = z3.simplify(z)
+        tid = z.get_id()
+        table = self.__dict__.setdefault("_canon", {})
+        if table.get("_path") is not self.pc:
+            table.clear()
+            table["_path"] = self.pc
+            table["_reps"] = []
+        if tid in table:
+            return table[tid]
+        if z3.is_int_value(z) or z3.is_rational_value(z) or z3.is_true(z) or z3.is_false(z):
+            table[tid] = tid
+            return tid
+        out = tid
+        if self._model is None:
+            r, m = self.check()
+            if r == z3.sat:
+                self._model = m
+        val = self._model.eval(z, model_completion=True) if self._model is not None else None
+        for rep, rid, rval in table["_reps"]:
+            if rep.sort() != z.sort():
+                continue
+            if val is not None and rval is not None and not z3.eq(val, rval):
+                continue
+            r, _m = self.check(rep != z)
+            if r == z3.unsat:
+                out = rid
+                break
+        if out == tid:
+            table["_reps"].append((z, tid, val))
+        table[tid] = out
+        return out
+
     def _model_says(self, cond):
         """If the cached model of the current pc decides cond, return True/False, else None."""
         if self._model is None:
